@@ -136,6 +136,7 @@ namespace sse
         double deadline_s = 1e9;
         long seed = 0;
         std::string family;   // optional restriction (debugging)
+        long stride = 0;      // C08 mode: visit every stride-th world (0 = tier default)
         bool thorough() const
         {
             return tier == "thorough";
@@ -172,6 +173,8 @@ namespace sse
                 a.seed = std::atol(next().c_str());
             else if (k == "--family")
                 a.family = next();
+            else if (k == "--stride")
+                a.stride = std::atol(next().c_str());
             else
             {
                 std::fprintf(stderr, "unknown argument %s\n", k.c_str());
@@ -190,6 +193,14 @@ namespace sse
         std::string detail;
     };
     using Findings = std::vector<Finding>;
+
+    // C08 mode (sanitized builds): functional oracles are muted, only sanitizer / crash
+    // findings ("C08/...") are recorded
+    inline bool& c08_mode()
+    {
+        static bool m = false;
+        return m;
+    }
 
     // ------------------------------------------------------------------ report
     struct Violation
@@ -228,6 +239,8 @@ namespace sse
                        const std::string& world,
                        const std::string& detail)
         {
+            if (c08_mode() && sig.rfind("C08/", 0) != 0)
+                return;
             ++viol_counts[sig];
             auto& v = viol[sig];
             v.push_back({ sig, order, world, detail });
@@ -499,6 +512,7 @@ namespace sse
         std::string current_stage;
         std::function<std::string()> world_fn;  // lazily renders the world being evaluated
         bool replay_mode = false;
+        u64 stride = 1;  // C08 mode: only every stride-th world is visited
 
         bool thorough() const
         {
@@ -508,7 +522,15 @@ namespace sse
         bool mine()
         {
             u64 idx = next_world++;
-            return replay_mode || (idx % static_cast<u64>(nshards)) == static_cast<u64>(shard);
+            if (replay_mode)
+                return true;
+            if (stride > 1)
+            {
+                if (idx % stride != 0)
+                    return false;
+                idx /= stride;
+            }
+            return (idx % static_cast<u64>(nshards)) == static_cast<u64>(shard);
         }
         // claim a block of `count` consecutive worlds as one unit of sharding
         bool mine_block()
@@ -573,6 +595,12 @@ namespace sse
         alarm(0);
     }
 
+    inline std::function<void()>& replay_emit()
+    {
+        static std::function<void()> f;
+        return f;
+    }
+
     // Run `body(ctx)` in `jobs` forked workers (or inline for a replay) and merge.
     inline int run_sharded(const Args& a, const std::function<void(Ctx&)>& body)
     {
@@ -584,6 +612,17 @@ namespace sse
             c.args = a;
             c.replay_mode = true;
             c.t0 = t0;
+            watchdog_ctx() = &c;
+            // a replay that crashes or aborts still reports what it recorded
+            replay_emit() = [&]()
+            {
+                Report r;
+                r.merge(c.rep);
+                r.compact();
+                std::string js = r.to_json(a, 0.0);
+                std::fputs(js.c_str(), stdout);
+                std::fflush(stdout);
+            };
             body(c);
             total.merge(c.rep);
         }
@@ -697,5 +736,164 @@ namespace sse
             { 0.25, 0.5, 0.75, 1.5 }                      // v5 strictly positive (no zero level)
         };
         return vm;
+    }
+}
+
+// ---------------------------------------------------------------------- sanitizer oracle (C08)
+#ifdef SSE_SANITIZED
+#include <execinfo.h>
+#include <sanitizer/asan_interface.h>
+#include <sanitizer/common_interface_defs.h>
+namespace sse
+{
+    inline int& san_errors()
+    {
+        static int n = 0;
+        return n;
+    }
+    // first frame inside the library (file:line), searching the current call stack
+    inline std::string first_library_frame(std::string* top = nullptr)
+    {
+        void* bt[48];
+        int n = backtrace(bt, 48);
+        char buf[1024];
+        std::string lib;
+        for (int i = 0; i < n; ++i)
+        {
+            buf[0] = 0;
+            // return addresses point after the call: step back one byte to stay on the call line
+            __sanitizer_symbolize_pc(static_cast<char*>(bt[i]) - 1, "%s:%l", buf, sizeof buf);
+            std::string f = buf;
+            auto pos = f.find("include/fastscapelib/");
+            if (pos != std::string::npos)
+            {
+                lib = f.substr(pos + 8);
+                break;
+            }
+            if (top && top->empty() && f.find("libsanitizer") == std::string::npos && f.find("common.hpp") == std::string::npos
+                && f.find("<null>") == std::string::npos)
+                *top = f;
+        }
+        return lib.empty() ? "outside-library" : lib;
+    }
+    inline void san_record(const std::string& kind)
+    {
+        Ctx* c = watchdog_ctx();
+        if (!c)
+            return;
+        std::string top;
+        std::string frame = first_library_frame(&top);
+        if (frame == "outside-library" && !c->current_stage.empty())
+            frame += "@" + c->current_stage;  // caller-side use of something the library handed out
+        c->rep.violation("C08/" + kind + "/" + frame,
+                         c->order(),
+                         (c->world_fn ? c->world_fn() : c->current_world) + ";via=" + c->args.property,
+                         kind + " reported by the sanitizer while running the " + c->args.property + " worlds; first library frame "
+                             + frame + (top.empty() ? "" : " (innermost frame " + top + ")"));
+        if (++san_errors() > 60)
+        {
+            // error flood: stop this worker, keep what was found
+            c->rep.deadline_hit = true;
+            c->rep.bounds["sanitizer_error_flood"] = "worker stopped after 60 reports";
+            c->rep.write_shard(watchdog_path());
+            std::_Exit(0);
+        }
+    }
+    inline void on_fatal(int sig)
+    {
+        std::signal(sig, SIG_DFL);
+        std::signal(SIGALRM, SIG_DFL);
+        alarm(5);
+        san_record(sig == SIGABRT ? "abort(ubsan-or-assertion)" : sig == SIGSEGV ? "segv" : sig == SIGFPE ? "fpe" : "fatal-signal");
+        Ctx* c = watchdog_ctx();
+        if (c && c->replay_mode)
+        {
+            if (replay_emit())
+                replay_emit()();
+            std::_Exit(0);
+        }
+        if (c)
+        {
+            c->rep.worker_died = true;
+            c->rep.write_shard(watchdog_path());
+        }
+        std::_Exit(0);
+    }
+    inline void install_san_handlers()
+    {
+        for (int sg : { SIGABRT, SIGSEGV, SIGBUS, SIGFPE, SIGILL })
+            std::signal(sg, on_fatal);
+    }
+}
+extern "C" void __asan_on_error()
+{
+    const char* d = __asan_get_report_description();
+    sse::san_record(std::string("asan-") + (d ? d : "error"));
+}
+extern "C" const char* __asan_default_options()
+{
+    return "halt_on_error=0:detect_leaks=0:detect_stack_use_after_return=1:handle_abort=0:handle_segv=0:handle_sigfpe=0:"
+           "handle_sigbus=0:handle_sigill=0:allocator_may_return_null=1";
+}
+extern "C" const char* __ubsan_default_options()
+{
+    return "print_stacktrace=0";
+}
+#endif
+
+namespace sse
+{
+    // Common entry point: `served` lists the properties this harness decides.  In a
+    // sanitized build, property C08 runs every served enumeration with the functional
+    // oracles muted; the sanitizer (and crash handlers) are the oracle.
+    inline int sse_main(int argc, char** argv, const std::vector<std::string>& served, const std::function<void(Ctx&)>& body)
+    {
+        Args a = parse_args(argc, argv);
+        bool c08 = a.property == "C08";
+        if (!c08 && std::find(served.begin(), served.end(), a.property) == served.end())
+        {
+            std::fprintf(stderr, "this harness does not serve %s\n", a.property.c_str());
+            return 2;
+        }
+#ifndef SSE_SANITIZED
+        if (c08)
+        {
+            std::fprintf(stderr, "C08 needs the sanitized build of this harness\n");
+            return 2;
+        }
+#endif
+        return run_sharded(a,
+                           [&](Ctx& ctx)
+                           {
+#ifdef SSE_SANITIZED
+                               install_san_handlers();
+#endif
+                               if (!c08)
+                               {
+                                   body(ctx);
+                                   return;
+                               }
+                               c08_mode() = true;
+                               ctx.stride = a.stride > 0 ? static_cast<u64>(a.stride) : (ctx.thorough() ? 3 : 24);
+                               ctx.rep.bounds["c08_world_stride"] = std::to_string(ctx.stride);
+                               if (ctx.replay_mode)
+                               {
+                                   // world strings carry the property whose enumeration produced them
+                                   auto kv = parse_kv(ctx.args.replay);
+                                   ctx.args.property = kv.count("via") ? kv["via"] : served.front();
+                                   body(ctx);
+                                   ctx.args.property = "C08";
+                                   return;
+                               }
+                               for (const auto& p : served)
+                               {
+                                   ctx.args.property = p;
+                                   ctx.next_world = 0;
+                                   body(ctx);
+                                   if (ctx.rep.deadline_hit)
+                                       break;
+                               }
+                               ctx.args.property = "C08";
+                           });
     }
 }
